@@ -253,7 +253,7 @@ class HarnessPoison(Exception):
 # (2) ownership: explicit-state BFS over manager histories
 # ---------------------------------------------------------------------------------------------------
 OPS = ("ctor_none", "ctor_async", "ctor_sync", "set_async", "set_sync", "set_other", "get", "resolve_ok", "resolve_err", "resolve_cancel",
-       "resolve_create_fails", "close")
+       "resolve_create_fails", "close", "close_raises", "close_cancelled", "resolve_close_raises", "resolve_close_cancelled")
 
 
 class OwnWorld(ResWorld):
@@ -295,6 +295,17 @@ def own_apply(w: OwnWorld, op: str) -> None:
         azc = w.mgr.get_async_zeroconf()
         azc.zeroconf.async_add_listener(object(), None)  # what the reconnect manager does with it
         return
+    if op in ("close_raises", "close_cancelled"):
+        # the close of a zeroconf instance fails (OS error while leaving the multicast groups) or the closing task is cancelled mid-way
+        w.n += 1
+        w.zlog.close_script = OSError("close failed") if op == "close_raises" else "hang"
+        w.spawn(f"close{w.n}", lambda: w.mgr.async_close())
+        w.drain()
+        if op == "close_cancelled" and w.pending(f"close{w.n}"):
+            w.cancel(f"close{w.n}")
+            w.drain()
+        w.zlog.close_script = None
+        return
     if op == "close":
         w.n += 1
         w.spawn(f"close{w.n}", lambda: w.mgr.async_close())
@@ -326,12 +337,15 @@ def own_apply(w: OwnWorld, op: str) -> None:
     w.net.gai_answer = lambda host, port: [gai_v4("10.8.8.8", PORT)]
     if op == "resolve_create_fails":
         w.zlog.create_error = OSError("no multicast")
+    if op in ("resolve_close_raises", "resolve_close_cancelled"):
+        w.zlog.close_script = OSError("close failed") if op == "resolve_close_raises" else "hang"
     w.spawn(name, lambda: hr.async_resolve_host(["porch1.local"], PORT, w.mgr))
     w.drain()
-    if op == "resolve_cancel" and w.pending(name):
+    if op in ("resolve_cancel", "resolve_close_cancelled") and w.pending(name):
         w.cancel(name)
         w.drain()
     w.zlog.create_error = None
+    w.zlog.close_script = None
     if w.pending(name):
         w.viol.append(f"C20:own:resolve-hang: {op} did not finish")
     r = w.results.get(name)
@@ -339,8 +353,8 @@ def own_apply(w: OwnWorld, op: str) -> None:
         w.viol.append(f"C20:own:empty-result: {op} returned an empty list")
     # an instance created for this lookup is closed again by the time the lookup is over, exactly once, and dropped
     for i in w.libs():
-        if id(i) in libs_before:
-            continue
+        if id(i) in libs_before or op in ("resolve_close_raises", "resolve_close_cancelled"):
+            continue  # a close that failed or was cancelled cannot be held against the library
         if i.closed != 1:
             w.viol.append(f"C20:own:lookup-instance: {i.label} was created for the lookup ({op}) and closed {i.closed} times by its end")
         if getattr(w.mgr, "_aiozc", None) is i:
@@ -426,7 +440,48 @@ def run_ownership(depth: int) -> dict[str, Any]:
     return {"part": "ownership", "evals": transitions, "nontrivial": transitions, "viol": viol, "states": states, "max_depth": max_depth}
 
 
+def run_connect_level() -> dict[str, Any]:
+    """'Used verbatim' down to the socket: what the start phase hands to connect() for literal and resolved addresses."""
+    env.load()
+    from ..world import ConnWorld
+
+    viol: list[tuple[str, str, Any]] = []
+    n = 0
+    cases: list[tuple[str, tuple[str, ...], Any, list[tuple[Any, ...]]]] = [
+        ("v4-literal", ("192.168.7.9",), None, [("192.168.7.9", PORT)]),
+        ("v6-literal", ("2001:db8::9",), None, [("2001:db8::9", PORT, 0, 0)]),
+        ("v6-scoped-literal", ("fe80::9%3",), None, [("fe80::9", PORT, 0, 3)]),
+        ("v6-scoped-literal-large-scope", ("fe80::a%4294967295",), None, [("fe80::a", PORT, 0, 4294967295)]),
+        ("os-resolved-v6-flow-scope", ("dev9.example.com",), [(socket.AF_INET6, socket.SOCK_STREAM, socket.IPPROTO_TCP, "", ("fd09::1", PORT, 7, 5))],
+         [("fd09::1", PORT, 7, 5)]),
+        ("two-literals-in-order", ("fe80::b%2", "10.9.8.7"), None, [("fe80::b", PORT, 0, 2), ("10.9.8.7", PORT)]),
+    ]
+    for label, hosts, gai, want in cases:
+        w = ConnWorld(addresses=hosts)
+        try:
+            if gai is not None:
+                w.net.gai_answer = lambda host, port, _g=gai: _g
+            w.do_start()
+            # refuse every attempt so that happy-eyeballs walks through the whole list in order
+            for _ in range(len(want) + 1):
+                for s_ in w.net.connecting():
+                    w.io_connect(s_, 111)
+                w.drain()
+                w.run_timers(w.loop.time() + 1.0)
+            got = [tuple(s_.connect_called) for s_ in w.net.sockets if s_.connect_called is not None]
+            n += 1
+            if got != want:
+                viol.append((f"connect:{label}", f"addresses {list(hosts)}: connect() was called with {got}, expected {want}", {"hosts": list(hosts)}))
+            if gai is None and w.net.gai_calls:
+                viol.append((f"connect:{label}:lookup", f"addresses {list(hosts)} are literals but the OS resolver was asked {w.net.gai_calls}", {"hosts": list(hosts)}))
+        finally:
+            w.close()
+    return {"part": "connect-level", "evals": n, "nontrivial": n, "viol": viol}
+
+
 def _job(j: tuple[Any, ...]) -> dict[str, Any]:
+    if j[0] == "conn":
+        return run_connect_level()
     if j[0] == "own":
         return run_ownership(j[1])
     return run_resolution(j[1:])
@@ -436,7 +491,7 @@ def run(tier: str, seed: int) -> Result:
     env.load()
     res = Result("C20", "model_checking")
     q = tier == "quick"
-    jobs: list[tuple[Any, ...]] = [("own", 6 if q else 8)]
+    jobs: list[tuple[Any, ...]] = [("own", 6 if q else 8), ("conn",)]
     jobs += [("res", 1, 0, 1)]
     jobs += [("res", 2, s, 4) for s in range(4)]
     jobs += [("res", 3, s, 14) for s in range(14)]
